@@ -37,7 +37,9 @@ func hostileString(r *Rng) string {
 	return string(r.Bytes(r.PickInt(1, 3, 8), nil))
 }
 
-var idents = []string{"p", "pipe1", "p.1", "a-b", "x/y", "ns:name", "_u", "P_2.x/y-z:9", "forwarder"}
+var idents = []string{"p", "pipe1", "p.1", "a-b", "x/y", "ns:name", "_u", "P_2.x/y-z:9", "forwarder",
+	// the same name in another case, a one-letter name, names that are prefixes of each other, a long one
+	"P", "Pipe1", "a", "ab", "a.b", "selectx", "piper", "x" + strings.Repeat("y", 199)}
 
 func (s *sgen) ident() string { return idents[s.r.Intn(len(idents))] }
 
@@ -55,6 +57,11 @@ func (s *sgen) tags(plain bool) string {
 		n = s.r.PickInt(1, 2, 2, 3, 3, 4)
 	}
 	names := []string{"a", "name", "ip", "c", "k-1", "x.y"}
+	if !plain || s.r.Chance(1, 3) {
+		// names that differ in case only (upper case sorts first), prefixes of each other, digits first, and one repeated:
+		// the order of the sorted line and which value counts as the last one depend on them
+		names = []string{"a", "A", "ab", "a.b", "a-b", "B", "1a", "name", "Name", "z", "a"}
+	}
 	var ps []string
 	for _, i := range s.r.Perm(len(names))[:n] {
 		v := plainTagVals[s.r.Intn(len(plainTagVals))]
@@ -147,15 +154,26 @@ func (s *sgen) where() string {
 }
 
 func (s *sgen) number() string {
-	return s.r.PickStr("0", "5", "10", "100", "-5", "+7", "010", "007", "08", "1.5", "1e3", "5k", "9223372036854775807", "9223372036854775808", "-9223372036854775808", "00")
+	return s.r.PickStr("0", "5", "10", "100", "-5", "+7", "010", "007", "08", "1.5", "1e3", "5k", "9223372036854775807", "9223372036854775808", "-9223372036854775808", "00",
+		// both ends of int64 and their neighbours, the ends of int32/uint32, signed zeros, the largest octal
+		"9223372036854775806", "-9223372036854775807", "-9223372036854775809", "2147483647", "2147483648", "-2147483648", "4294967295", "4294967296",
+		"-0", "+0", "-1", "1", "0777777777777777777777", "01000000000000000000000", "-01000000000000000000000")
 }
 
 func (s *sgen) size() string {
-	return s.r.PickStr("0", "5", "1000", "5kb", "5KiB", "1G", "10M", "1.5kb", "2mib", "3Tb", "7b", "5bb", "1e3", "-5", "12pb", "1eb")
+	return s.r.PickStr("0", "5", "1000", "5kb", "5KiB", "1G", "10M", "1.5kb", "2mib", "3Tb", "7b", "5bb", "1e3", "-5", "12pb", "1eb",
+		// around 2^63 and 2^64 (Size is a uint64, printed in decimal), one byte, fractions of a byte
+		"1", "9223372036854775807", "9223372036854775808", "18446744073709551615", "18446744073709551616", "8EiB", "15EiB", "16EiB", "15.9eb", "0.5", "0.5kb", "1.0005kb", "+5", "00012")
 }
 
 var timeLits = []string{"2019-03-11 12:34:55", "2019-03-11", "1552307695000000000", "1552307695000000123", "0", "-7", "2019-03-11T12:34:55Z", "11/03/2019 12:34:55",
-	"2019/03/11 12:34", "2019-03-11 12:34:55.123", "Mar 11, 2019 2:34:55 PM", "garbage", ""}
+	"2019/03/11 12:34", "2019-03-11 12:34:55.123", "Mar 11, 2019 2:34:55 PM", "garbage", "",
+	// the ends of the instants an int64 of nanoseconds can hold, one beyond, years the date formats accept but int64 does not,
+	// leap day, end of year, midnight, zones other than UTC, the epoch and the instant before it
+	"2262-04-11 23:47:16.854775807 +0000 UTC", "2262-04-11 23:47:16.854775808 +0000 UTC", "1677-09-21 00:12:43.145224192 +0000 UTC",
+	"1677-09-21 00:12:43.145224191 +0000 UTC", "9223372036854775807", "-9223372036854775808", "9223372036854775808", "2999-12-31 23:59:59", "1000-01-01",
+	"2020-02-29 23:59:59.999999999 +0000 UTC", "2100-02-28 00:00:00", "2019-12-31 23:59:59.999999999", "2020-01-01 00:00:00 +0000 UTC",
+	"2019-03-11 12:34:44 -0700 MST", "2019-03-11 12:34:44.500 +0545", "2019-03-11 23:59:59 +1400", "1970-01-01 00:00:00 +0000 UTC", "1969-12-31 23:59:59.999999999 +0000 UTC"}
 
 // time points with a sub-second part, written with the zone as DateTime.String() writes it: the fraction must survive
 // print and re-parse whatever its trailing zeros (.5 and .25 are what time.Time.String() makes of .500 and .250)
